@@ -180,6 +180,13 @@ func runRead(lines []string) {
 				fmt.Fprintln(out, "info", res(err))
 				if err == nil {
 					printInfo(info)
+					cc := info.ChannelCounts()
+					topics := []string{}
+					for t := range cc {
+						topics = append(topics, hx([]byte(t)))
+					}
+					sort.Strings(topics)
+					fmt.Fprintln(out, "channelcounts", strings.Join(topics, ","))
 				}
 			case "getatt":
 				ar, err := r.GetAttachmentReader(u64(op[1]))
